@@ -379,7 +379,25 @@ impl<
         // could still return an ambiguous offset).
         if this_index == starts.len() - 1 {
             if let Some(tz) = self.posix_tz() {
-                return tz.to_ambiguous_kind(dt);
+                let kind = tz.to_ambiguous_kind(dt);
+                // The POSIX TZ string only describes instants at or after
+                // the last transition. If it reports a fold whose earlier
+                // reading falls before that transition, then that reading
+                // is governed by the TZif data instead, and we already know
+                // from above that the data has no fold here. This happens
+                // when the last transition isn't one the POSIX rule itself
+                // would produce with a change in offset (for example,
+                // `America/Nuuk` at 2023-10-28T23:00).
+                if let AmbiguousOffset::Fold { before, after } = kind {
+                    let last = self.timestamps()[this_index];
+                    let in_rule = before
+                        .to_timestamp(dt)
+                        .map_or(true, |ts| ts.as_second() >= last);
+                    if !in_rule {
+                        return AmbiguousOffset::Unambiguous { offset: after };
+                    }
+                }
+                return kind;
             }
             // This case is unspecified according to RFC 8536. It means that
             // the given datetime exceeds all transitions *and* there is no
